@@ -51,10 +51,10 @@ CLAIMS = {
           "deterministic simulation: state invariant after every event"),
   "C15": ("exploration", "5/C15",
           "Paired simulated runs with identical seeds and schedules: mode min on table f and mode max on -f (MOASHA: every metric flipped) for all model-free schedulers; suggestions, decisions, promotions, clone sources and the reported best configuration are compared event by event; a first divergence is only excused when some rung threshold (numpy.quantile) lies within round-off of a metric value in the history so far.",
-          "The tie excuse is deliberately coarse (any rung, any prefix) to rule out false alarms; tables are in general position; stop criteria with metric thresholds are not used in pairs.",
+          "The round-off excuse is judged at the first diverging decision only (reporter vs the quantile of its own rung; best unpromoted entry vs its rung's quantile); tables are in general position; stop criteria with metric thresholds are not used in pairs.",
           "deterministic simulation: paired executions, event-by-event comparison"),
   "C16": ("fault_enumeration", "5/C16",
-          "Crash-restart of the scheduler/searcher at EVERY call boundary of each sampled history (H <= 120 exhaustively, longer histories: first 40 + 40 sampled): dill round trip of the scheduler (thorough: of the whole tuner), and get_state/clone_from_state for random, grid and GP searchers; the continuation must equal the uninterrupted twin (GP state route: restored data set equal, no duplicate suggestion, restore does not raise).",
+          "Crash-restart of the scheduler/searcher at EVERY call boundary of each sampled history (H <= 120 exhaustively, longer histories: first 40 + 40 sampled): dill round trip of the scheduler (thorough: of the whole tuner), and get_state/clone_from_state for random, grid and GP searchers; the continuation must equal the uninterrupted twin (GP state route: restored data set, generator state and skip-optimization predicate equal, random-or-model phase and every non-model-based suggestion equal up to the first model-based one, no duplicate suggestion, restore does not raise).",
           "For the GP clone_from_state route bit-identical model-based suggestions are not demanded (a re-created searcher re-fits its surrogate and bounded fits are not idempotent); scenarios with the early-checkpoint-removal callback (which keeps its own scheduler reference) are excluded; non-public attribute _searcher is assigned on the state route.",
           "deterministic simulation: enumerated crash-restart points, continuation compared with uninterrupted twin"),
   "C17": ("exploration", "5/C17",
